@@ -10,22 +10,27 @@
 #include <orc/orcx86insn.h>
 
 /* ---- application opcodes: unsigned saturating 16-bit add under various names ---- */
-static int emu_calls[8];
+static int emu_calls[10];
 #define EMU(k) static void emu_##k (OrcOpcodeExecutor *ex, int offset, int n) { \
   int i; const orc_uint16 *a = ex->src_ptrs[0], *b = ex->src_ptrs[1]; orc_uint16 *d = ex->dest_ptrs[0]; \
   (void) offset; emu_calls[k]++; \
   for (i = 0; i < n; i++) { unsigned s = (unsigned) a[i] + b[i]; d[i] = s > 65535 ? 65535 : (orc_uint16) s; } }
-EMU (0) EMU (1) EMU (2) EMU (3) EMU (4)
+EMU (0) EMU (1) EMU (2) EMU (3) EMU (4) EMU (5) EMU (6)
 
 static OrcStaticOpcode setA[] = { { "myop", 0, { 2 }, { 2, 2 }, emu_0 }, { "myop2", 0, { 2 }, { 2, 2 }, emu_1 }, { "" } };
 static OrcStaticOpcode setB[] = { { "addbx", 0, { 2 }, { 2, 2 }, emu_2 }, { "" } };
 static OrcStaticOpcode setC[] = { { "add", 0, { 2 }, { 2, 2 }, emu_3 }, { "" } };
 static OrcStaticOpcode setD[] = { { "abcdefghijklmno", 0, { 2 }, { 2, 2 }, emu_4 }, { "" } };
-static OrcStaticOpcode *sets[] = { setA, setB, setC, setD };
-static char *setprefix[] = { "appA", "appB", "appC", "appD" };
-static const char *probe_op[] = { "myop", "addbx", "add", "abcdefghijklmno" };
-static const int probe_emu[] = { 0, 2, 3, 4 };
-#define NSETS 4
+/* names that extend built-in names the x86 back ends treat specially by name (resampling loads, single-copy programs) */
+static OrcStaticOpcode setE[] = { { "ldresnearlx", 0, { 2 }, { 2, 2 }, emu_5 }, { "copywx", 0, { 2 }, { 2, 2 }, emu_6 }, { "" } };
+static OrcStaticOpcode *sets[] = { setA, setB, setC, setE, setD };
+static char *setprefix[] = { "appA", "appB", "appC", "appE", "appD" };
+static const char *probe_op[] = { "myop", "addbx", "add", "ldresnearlx", "abcdefghijklmno" };
+static const int probe_emu[] = { 0, 2, 3, 5, 4 };
+/* a second opcode of the set that is probed as well (NULL: none) */
+static const char *probe_op2[] = { NULL, NULL, NULL, "copywx", NULL };
+static const int probe_emu2[] = { 0, 0, 0, 6, 0 };
+#define NSETS 5
 
 /* ---- rules ---- */
 #define MAXRULES 16
@@ -92,8 +97,8 @@ static const char *op_str (const Op * o)
   static char b[4][64];
   static int k;
   char *s = b[k = (k + 1) & 3];
-  if (o->kind == 0) snprintf (s, 64, "set%c", 'A' + o->set);
-  else if (o->kind == 1) snprintf (s, 64, "rules(%s,set%c,%s)", tnames[o->target], 'A' + o->set, fk_name (o->fk));
+  if (o->kind == 0) snprintf (s, 64, "set%c", "ABCED"[o->set]);
+  else if (o->kind == 1) snprintf (s, 64, "rules(%s,set%c,%s)", tnames[o->target], "ABCED"[o->set], fk_name (o->fk));
   else snprintf (s, 64, "override(%s,%s)", tnames[o->target], fk_name (o->fk));
   return s;
 }
@@ -142,7 +147,7 @@ static void child (const Op * hist, int nh, int wfd)
   OrcOpcodeSet *oset[NSETS] = { 0 };
   int have_set[NSETS] = { 0 };
   /* expected rule id per (target,set) and for the override: id of the latest registered rule set whose flags are satisfied */
-  int exp_rule[3][NSETS], exp_over[3], nrules = 0, i, t, s;
+  int exp_rule[3][NSETS], exp_over[3], nrules = 0, i, t, s, q;
   int registered_rules[3][NSETS] = { { 0 } };
   memset (&R, 0, sizeof (R));
   for (t = 0; t < 3; t++) { exp_over[t] = -1; for (s = 0; s < NSETS; s++) exp_rule[t][s] = -1; }
@@ -176,25 +181,28 @@ static void child (const Op * hist, int nh, int wfd)
   (void) oset; (void) registered_rules;
   /* ---- probes ---- */
 #define FAIL(...) do { snprintf (R.msg, sizeof (R.msg), __VA_ARGS__); R.rc = 1; goto done; } while (0)
-  for (s = 0; s < NSETS; s++) {
+  for (s = 0; s < NSETS; s++) for (q = 0; q < 2; q++) {
     orc_uint16 d[24], e[24];
     OrcProgram *p;
+    const char *pn = q ? probe_op2[s] : probe_op[s];
+    int pe = q ? probe_emu2[s] : probe_emu[s];
+    if (!pn) continue;
     if (!have_set[s]) {
       /* an unregistered extension name must not resolve to anything */
-      if (s != 2 && orc_opcode_find_by_name (probe_op[s])) FAIL ("opcode %s resolves although its set was never registered", probe_op[s]);
+      if (s != 2 && orc_opcode_find_by_name (pn)) FAIL ("opcode %s resolves although its set was never registered", pn);
       continue;
     }
     {
-      OrcStaticOpcode *o = orc_opcode_find_by_name (probe_op[s]);
-      if (o != &sets[s][0]) FAIL ("name %s does not resolve to the application's opcode (resolved to %s)", probe_op[s], o ? o->name : "nothing");
+      OrcStaticOpcode *o = orc_opcode_find_by_name (pn);
+      if (o != &sets[s][q]) FAIL ("name %s does not resolve to the application's opcode (resolved to %s)", pn, o ? o->name : "nothing");
     }
     /* emulation uses the application's function */
     for (i = 0; i < 21; i++) e[i] = sat ((unsigned) S1v[i] + S2v[i]);
     for (i = 21; i < 24; i++) e[i] = 0x5a5a;
-    p = prog3 (probe_op[s], NULL);
-    if (ORC_COMPILE_RESULT_IS_FATAL (orc_program_compile_for_target (p, NULL))) FAIL ("extension program %s: fatal compile for emulation", probe_op[s]);
-    { int before = emu_calls[probe_emu[s]]; run_prog (p, 1, d); if (emu_calls[probe_emu[s]] == before) FAIL ("emulating %s did not call the application's emulation function", probe_op[s]); }
-    if (memcmp (d, e, sizeof (d))) FAIL ("emulating %s gives a wrong result", probe_op[s]);
+    p = prog3 (pn, NULL);
+    if (ORC_COMPILE_RESULT_IS_FATAL (orc_program_compile_for_target (p, NULL))) FAIL ("extension program %s: fatal compile for emulation", pn);
+    { int before = emu_calls[pe]; run_prog (p, 1, d); if (emu_calls[pe] == before) FAIL ("emulating %s did not call the application's emulation function", pn); }
+    if (memcmp (d, e, sizeof (d))) FAIL ("emulating %s gives a wrong result", pn);
     orc_program_free (p);
     /* compile for each target: the application's rule (latest satisfied) must be used, else fallback to emulation */
     for (t = 0; t < ntargets_used; t++) {
@@ -203,20 +211,20 @@ static void child (const Op * hist, int nh, int wfd)
       int before[MAXRULES], k, used = -1, n_used = 0, mixed;
       for (mixed = 0; mixed < 2; mixed++) {
         memcpy (before, rule_calls, sizeof (before));
-        p = mixed ? prog3 (probe_op[s], "addw") : prog3 (probe_op[s], NULL);
+        p = mixed ? prog3 (pn, "addw") : prog3 (pn, NULL);
         r = orc_program_compile_for_target (p, tg);
         used = -1; n_used = 0;
         for (k = 0; k < nrules; k++) if (rule_calls[k] != before[k] && k != exp_over[t]) { used = k; n_used++; }
         if (exp_rule[t][s] >= 0) {
-          if (!ORC_COMPILE_RESULT_IS_SUCCESSFUL (r)) FAIL ("%s on %s: a satisfied application rule set exists but compilation failed (0x%x)", probe_op[s], tnames[t], r);
-          if (n_used != 1 || used != exp_rule[t][s]) FAIL ("%s on %s: rule of registration #%d used, expected #%d (latest satisfied)", probe_op[s], tnames[t], used, exp_rule[t][s]);
+          if (!ORC_COMPILE_RESULT_IS_SUCCESSFUL (r)) FAIL ("%s on %s: a satisfied application rule set exists but compilation failed (0x%x)", pn, tnames[t], r);
+          if (n_used != 1 || used != exp_rule[t][s]) FAIL ("%s on %s: rule of registration #%d used, expected #%d (latest satisfied)", pn, tnames[t], used, exp_rule[t][s]);
         } else {
-          if (ORC_COMPILE_RESULT_IS_SUCCESSFUL (r)) FAIL ("%s on %s: compiled natively although no satisfied rule set exists", probe_op[s], tnames[t]);
-          if (ORC_COMPILE_RESULT_IS_FATAL (r)) FAIL ("%s on %s: missing rule gave a fatal result 0x%x", probe_op[s], tnames[t], r);
+          if (ORC_COMPILE_RESULT_IS_SUCCESSFUL (r)) FAIL ("%s on %s: compiled natively although no satisfied rule set exists", pn, tnames[t]);
+          if (ORC_COMPILE_RESULT_IS_FATAL (r)) FAIL ("%s on %s: missing rule gave a fatal result 0x%x", pn, tnames[t], r);
         }
         run_prog (p, 0, d);
         for (i = 0; i < 21; i++) e[i] = mixed ? (orc_uint16) (sat ((unsigned) S1v[i] + S2v[i]) + S1v[i]) : sat ((unsigned) S1v[i] + S2v[i]);
-        if (memcmp (d, e, sizeof (d))) FAIL ("%s%s on %s computes a wrong result", probe_op[s], mixed ? "+addw" : "", tnames[t]);
+        if (memcmp (d, e, sizeof (d))) FAIL ("%s%s on %s computes a wrong result", pn, mixed ? "+addw" : "", tnames[t]);
         orc_program_free (p);
       }
     }
@@ -352,8 +360,8 @@ int main (int argc, char **argv)
   ntargets_used = thorough ? 3 : 2;
   setvbuf (stdout, NULL, _IOLBF, 0);
   orc_init ();
-  for (s = 0; s < (thorough ? 4 : 3); s++) { alphabet[nalpha].kind = 0; alphabet[nalpha].set = s; nalpha++; }
-  for (t = 0; t < ntargets_used; t++) for (s = 0; s < (thorough ? 4 : 3); s++) for (fk = 0; fk < 5; fk++) {
+  for (s = 0; s < (thorough ? 5 : 4); s++) { alphabet[nalpha].kind = 0; alphabet[nalpha].set = s; nalpha++; }
+  for (t = 0; t < ntargets_used; t++) for (s = 0; s < (thorough ? 5 : 4); s++) for (fk = 0; fk < 5; fk++) {
     if (!thorough && s > 0 && fk != 1 && fk != 2) continue;	/* quick: flag variety on set A, have/lack on the others */
     if (thorough && s > 1 && fk > 2) continue;
     alphabet[nalpha].kind = 1; alphabet[nalpha].set = s; alphabet[nalpha].target = t; alphabet[nalpha].fk = fk; nalpha++;
